@@ -12,6 +12,26 @@ from typing import List, Tuple, Optional, Callable
 from .opcodes import RegexOpCode as Op
 
 
+# ECMAScript character sets (Unicode-aware str.isdigit/isalnum/isspace differ)
+_LINE_TERMINATORS = "\n\r\u2028\u2029"
+_SPACES = (
+    "\t\n\x0b\x0c\r \xa0\u1680\u2000\u2001\u2002\u2003\u2004\u2005\u2006"
+    "\u2007\u2008\u2009\u200a\u2028\u2029\u202f\u205f\u3000\ufeff"
+)
+
+
+def _is_digit(ch: str) -> bool:
+    return "0" <= ch <= "9"
+
+
+def _is_word(ch: str) -> bool:
+    return ch == "_" or ("0" <= ch <= "9") or ("a" <= ch <= "z") or ("A" <= ch <= "Z")
+
+
+def _is_space(ch: str) -> bool:
+    return ch in _SPACES
+
+
 class RegexTimeoutError(Exception):
     """Raised when regex execution times out."""
 
@@ -200,7 +220,7 @@ class RegexVM:
                     pc, sp, captures, registers = self._backtrack(stack)
 
             elif opcode == Op.DOT:
-                if sp >= len(string) or string[sp] == "\n":
+                if sp >= len(string) or string[sp] in _LINE_TERMINATORS:
                     if not stack:
                         return None
                     pc, sp, captures, registers = self._backtrack(stack)
@@ -218,7 +238,7 @@ class RegexVM:
                 pc += 1
 
             elif opcode == Op.DIGIT:
-                if sp >= len(string) or not string[sp].isdigit():
+                if sp >= len(string) or not _is_digit(string[sp]):
                     if not stack:
                         return None
                     pc, sp, captures, registers = self._backtrack(stack)
@@ -227,7 +247,7 @@ class RegexVM:
                 pc += 1
 
             elif opcode == Op.NOT_DIGIT:
-                if sp >= len(string) or string[sp].isdigit():
+                if sp >= len(string) or _is_digit(string[sp]):
                     if not stack:
                         return None
                     pc, sp, captures, registers = self._backtrack(stack)
@@ -236,7 +256,7 @@ class RegexVM:
                 pc += 1
 
             elif opcode == Op.WORD:
-                if sp >= len(string) or not (string[sp].isalnum() or string[sp] == "_"):
+                if sp >= len(string) or not _is_word(string[sp]):
                     if not stack:
                         return None
                     pc, sp, captures, registers = self._backtrack(stack)
@@ -245,7 +265,7 @@ class RegexVM:
                 pc += 1
 
             elif opcode == Op.NOT_WORD:
-                if sp >= len(string) or (string[sp].isalnum() or string[sp] == "_"):
+                if sp >= len(string) or _is_word(string[sp]):
                     if not stack:
                         return None
                     pc, sp, captures, registers = self._backtrack(stack)
@@ -254,7 +274,7 @@ class RegexVM:
                 pc += 1
 
             elif opcode == Op.SPACE:
-                if sp >= len(string) or not string[sp].isspace():
+                if sp >= len(string) or not _is_space(string[sp]):
                     if not stack:
                         return None
                     pc, sp, captures, registers = self._backtrack(stack)
@@ -263,7 +283,7 @@ class RegexVM:
                 pc += 1
 
             elif opcode == Op.NOT_SPACE:
-                if sp >= len(string) or string[sp].isspace():
+                if sp >= len(string) or _is_space(string[sp]):
                     if not stack:
                         return None
                     pc, sp, captures, registers = self._backtrack(stack)
@@ -340,7 +360,7 @@ class RegexVM:
                 pc += 1
 
             elif opcode == Op.LINE_START_M:
-                if sp != 0 and (sp >= len(string) or string[sp - 1] != "\n"):
+                if sp != 0 and (sp >= len(string) or string[sp - 1] not in _LINE_TERMINATORS):
                     if not stack:
                         return None
                     pc, sp, captures, registers = self._backtrack(stack)
@@ -356,7 +376,7 @@ class RegexVM:
                 pc += 1
 
             elif opcode == Op.LINE_END_M:
-                if sp != len(string) and string[sp] != "\n":
+                if sp != len(string) and string[sp] not in _LINE_TERMINATORS:
                     if not stack:
                         return None
                     pc, sp, captures, registers = self._backtrack(stack)
@@ -616,7 +636,7 @@ class RegexVM:
         """Check if position is at a word boundary."""
 
         def is_word_char(ch: str) -> bool:
-            return ch.isalnum() or ch == "_"
+            return _is_word(ch)
 
         before = pos > 0 and is_word_char(string[pos - 1])
         after = pos < len(string) and is_word_char(string[pos])
@@ -695,7 +715,7 @@ class RegexVM:
                     pc, sp, captures, registers = stack.pop()
 
             elif opcode == Op.DOT:
-                if sp >= len(string) or string[sp] == "\n":
+                if sp >= len(string) or string[sp] in _LINE_TERMINATORS:
                     if not stack:
                         return None
                     pc, sp, captures, registers = stack.pop()
@@ -796,7 +816,7 @@ class RegexVM:
                     pc, sp, captures, registers = stack.pop()
 
             elif opcode == Op.DOT:
-                if sp >= len(string) or string[sp] == "\n":
+                if sp >= len(string) or string[sp] in _LINE_TERMINATORS:
                     if not stack:
                         return False
                     pc, sp, captures, registers = stack.pop()
@@ -805,7 +825,7 @@ class RegexVM:
                 pc += 1
 
             elif opcode == Op.DIGIT:
-                if sp >= len(string) or not string[sp].isdigit():
+                if sp >= len(string) or not _is_digit(string[sp]):
                     if not stack:
                         return False
                     pc, sp, captures, registers = stack.pop()
@@ -820,7 +840,7 @@ class RegexVM:
                     pc, sp, captures, registers = stack.pop()
                     continue
                 ch = string[sp]
-                if ch.isalnum() or ch == "_":
+                if _is_word(ch):
                     sp += 1
                     pc += 1
                 else:
